@@ -24,10 +24,9 @@ Local Open Scope nat_scope.
    namespaces, any depth, elements named message / presence / iq / body / error / failed at
    any depth) and demands only: (a) a child that the registry maps to a Go type is
    well-typed for that type ([ext_ok]: forced by the proof, confirmed on the code - D18;
-   modelled: MUC history conversions, Form name check below command);
-   (b) a child of <failed/> whose local name is a listed condition is in the stanzas
-   namespace (any other child of <failed/> is arbitrary; <failed h=.../> needs nothing);
-   (c) the element's own uint attribute (h of a / resumed / resume, max of enabled) converts.
+   modelled: MUC history conversions);
+   (b) the element's own uint attribute (h of a / resumed / resume, max of enabled) converts.
+   Nothing is asked of <failed/> (any children, any h) nor of the children of <command/>.
    Then successive NextPacket calls return exactly the packets of the elements, in order,
    then the close packet, then "connection closed". *)
 Theorem C02_framing : forall reg (items : list node),
@@ -230,7 +229,8 @@ Theorem C02_illtyped_extension_refuted :
   run_packets registry true (flatten_all d18_witness ++ [TEnd stream_name]) = [Err EDecode].
 Proof. split; vm_compute; reflexivity. Qed.
 
-(* the two remaining name-check findings: hypotheses (a) and (b) are needed
+(* the two former name-check findings (repaired by beca765 and 92db6e3) are now inside the
+   theorem's domain: no hypothesis is needed for them
    <iq><command xmlns='http://jabber.org/protocol/commands'><x xmlns='u'/></command></iq>
    <failed xmlns='urn:xmpp:sm:3'><conflict xmlns='u'/></failed> *)
 Definition foreign_witness1 : list node :=
@@ -240,12 +240,21 @@ Definition foreign_witness2 : list node :=
   [NElem (ns_sm, bytes_of "failed") [] [NElem (un "conflict") [] []];
    NElem (cl "presence") [] []].
 
-Theorem C02_foreign_names_refuted :
-  forallb (top_ok registry) foreign_witness1 = false /\
-  run_packets registry true (flatten_all foreign_witness1 ++ [TEnd stream_name]) = [Err EDecode] /\
-  forallb (top_ok registry) foreign_witness2 = false /\
-  run_packets registry true (flatten_all foreign_witness2 ++ [TEnd stream_name]) = [Err EDecode].
+Theorem C02_foreign_names_ok :
+  forallb (top_ok registry) foreign_witness1 = true /\
+  forallb (top_ok registry) foreign_witness2 = true /\
+  List.length (pkts_of foreign_witness1) = 2 /\ List.length (pkts_of foreign_witness2) = 2.
 Proof. repeat split; vm_compute; reflexivity. Qed.
+
+(* <failed/> with ARBITRARY children and attributes always yields its packet *)
+Theorem C02_failed_any_content : forall reg a cs rest,
+  next_packet reg true (flatten (NElem (ns_sm, s_failed) a cs) ++ rest) = (PSmFailed, rest).
+Proof.
+  intros. apply (C02_one_element reg _ a cs rest TKFailed); [vm_compute; reflexivity|].
+  cbn [top_ok]. replace (classify (ns_sm, s_failed)) with (@inl top_kind errk TKFailed)
+    by (vm_compute; reflexivity).
+  cbn [own_attrs_ok andb]. apply forallb_forall. intros [n' a' cs'|t|] _; reflexivity.
+Qed.
 
 (* non-vacuity: a stream whose elements contain unknown children, a nested same-named
    stanza (carbons shape), known child names below an unknown parent, a registered
@@ -330,4 +339,5 @@ Print Assumptions C02_attr_value.
 Print Assumptions C02_attr_absent.
 Print Assumptions C02_unrepaired_refuted.
 Print Assumptions C02_illtyped_extension_refuted.
-Print Assumptions C02_foreign_names_refuted.
+Print Assumptions C02_foreign_names_ok.
+Print Assumptions C02_failed_any_content.
